@@ -209,6 +209,8 @@ def s_assigned_vars(ctx):
     else:
         D.unfold_stmt(I, stmt)
         ctx.cover("assigned_vars." + I.class_of(stmt).__name__)
+        if I.class_of(stmt) is A.OtherStmt:
+            return
         goal = D.sup(as_set_term(r), D.MayDef(stmt.ref))
     ctx.check("C01.analysis.assigned_vars.result_contains_maydef", goal, CL)
 
@@ -296,6 +298,8 @@ def s_live_do_visit(ctx):
         return
     cls = D.unfold_stmt(I, stmt)
     ctx.cover("do_visit." + cls.__name__)
+    if cls is A.OtherStmt:
+        return  # a statement kind outside the modelled grammar that the analysis accepts: refusing it is the converter's job (C02)
     for fld in ("body", "orelse"):
         if fld in A.GRAMMAR.get(cls, {}) and A.GRAMMAR[cls][fld] == "stmt*":
             D.unfold_end(ctx, A.blk(fld)(stmt.ref))
@@ -370,6 +374,8 @@ def s_exposed_visit(ctx):
         return
     cls = D.unfold_stmt(I, stmt)
     ctx.cover("exposed.visit." + cls.__name__)
+    if cls is A.OtherStmt:
+        return
     for fld in ("body", "orelse"):
         if A.GRAMMAR.get(cls, {}).get(fld) == "stmt*":
             D.unfold_end(ctx, A.blk(fld)(stmt.ref))
